@@ -95,6 +95,7 @@ var alsoViolates = map[string][][2]string{
 	"C06/forward-missing":             {{"C01", "forward-missing"}},
 	"C06/forward-filter":              {{"C02", "forward-filter"}, {"C07", "forward-filter"}},
 	"C06/wrong-target":                {{"C02", "wrong-target"}},
+	"C14/retention-at-publish":        {{"C01", "retention-at-publish"}}, // the message stops being offered before its retention ends
 }
 
 func (m *Monitors) fire(prop, sig, f string, a ...any) {
